@@ -97,7 +97,7 @@ def main():
             for c in colls[:(24 if quick else 120)]:
                 for bdy in BODIES[:: (3 if quick else 1)]:
                     ex.append({"t": "coll", "op": c["op"], "sel": c["sel"], "mode": c["mode"], "n1": c["n1"], "n2": c["n2"], "e": bdy})
-            vlib.run_machine(chk, "c06-machine", data["docs"], data["cfgs"], cfgsel, ex)
+            vlib.run_machine(chk, "c06-machine", data["docs"], data["cfgs"], cfgsel, ex, worlds=[wn])
     chk.cov["distinct_nontrivial"] = nontrivial
     chk.notes["groups_by_collection_length"] = {str(k): v for k, v in sorted(lens.items())}
     chk.notes["rule"] = ("quantifier shells (any/all x four binding modes) over every structural path up to depth 3 (lists, arrays, "
